@@ -1,7 +1,7 @@
 (* Correspondence glue for C15. *)
 From Coq Require Import List PeanoNat PArith ZArith Bool.
 Import ListNotations.
-Require Import Verif.DataModel.DmShapeTypes Verif.DataModel.DmModel Verif.DataModel.DmCurrent Verif.DataModel.DmWrap Verif.Base.Harness.
+Require Import Verif.DataModel.DmShapeTypes Verif.DataModel.DmModel Verif.DataModel.DmDraw Verif.DataModel.DmWrap Verif.Base.Harness.
 
 Definition str_eq_dec : forall a b:str, {a = b} + {a <> b} := list_eq_dec Pos.eq_dec.
 Definition card_eq_dec : forall a b:card, {a = b} + {a <> b}. Proof. decide equality. Defined.
